@@ -227,7 +227,12 @@ def child_history(spec, ops):
                 elif k == "build":
                     # "the same actions": ONE dict object per Grammar object, handed
                     # to every construction on it (fresh oracles get their own)
-                    gobj = grammars[op["g"]]
+                    gobj = grammars.get(op["g"])
+                    if gobj is None:
+                        # the grammar op of this history failed (reported there)
+                        parsers[op["p"]] = (None, None)
+                        outs.append({"skipped": "no grammar"})
+                        continue
                     if id(gobj) not in actions_of:
                         actions_of[id(gobj)] = (gobj, peers.recording_actions(
                             spec["act_nts"], spec["act_terms"]))
